@@ -242,7 +242,12 @@ def run(outcome, _harnesses):
             if outcome.findings.lookup("C27", key) is not None:
                 outcome.violation(key, what, None)
             else:
-                ok, path, note = replay(rdir, key, src, name, ops, is_set, vals)
+                rname, rvals = name, vals
+                if pattern is not None:
+                    # replay through the inner function with the concrete keys filled in
+                    itv = iter(vals)
+                    rname, rvals = name + "_inner", [next(itv) if isinstance(x, str) else x for x in pattern]
+                ok, path, note = replay(rdir, key, src, rname, ops, is_set, rvals)
                 entry["replay"] = note
                 if ok:
                     outcome.violation(key, "%s: %s with arguments %s [real VM: %s]" % (name, what, vals, note), path)
